@@ -19,6 +19,15 @@ CLAIMED = {
     "C16": dict(level="model_checking", tech="TLA+ spec (Deps.tla OutputDiag with flags) model-checked by TLC; every (configuration, flag set) replayed on the real tool and the four runs compared with the spec and with each other",
                 text="For every configuration of the defect-subset family X and the reference families N/M and each of the four flag sets: accepted iff the specification leaves no non-ignored diagnostic; non-ignored error lists identical to the run without flags; ignored rule silent; output sha256 identical whenever accepted without flags. FlagsOnlyNarrow is checked by TLC on the model.",
                 note="Trusted: TLC, concretiser, report parser."),
+    "C10": dict(level="fault_enumeration", tech="TLA+ state machine of the build pipeline (Pipeline.tla) model-checked by TLC over fault/defect/flag/output-path scenarios; every scenario replayed on the real command; every run's own step report validated as a trace against the spec (Trace_Pipeline)",
+                text="TLC explores Pipeline.tla over scenarios = outcome per -i pattern (no match, invalid glob, one/two good files, directory, unparsable YAML, wrong node kind, same file twice) x defect-class sets x flags x state of the -o path (absent, existing, missing directory, is a directory, below a regular file), checking ExitIff, Untouched, CountMatch, OneFailLast, InOrder, WriteLast on all states. Each scenario is realised in a private directory and run in-process (a sample as a real process); exit status, failing step, rule statuses, numbered-list length and a before/after digest of the whole directory are compared; all runs are validated by TLC as traces.",
+                note="Trusted: TLC, scenario realisation, report parser, directory snapshots. Faults that need a non-root user or a full disk are not injected."),
+    "C18": dict(level="model_checking", tech="TLA+ spec of the gate (Version.tla) enumerated by TLC over the (B, V) grid; every pair replayed in-process and, for v-prefixed / non-semver builds, on binaries linked with -X main.version=B",
+                text="Exhaustive grid of majors x minors x patches x {release, prerelease, +build, both} for B and V, non-semver builds, v-prefixed builds, absent and ten malformed V forms; verdict class (accept / version diagnostic / parse error) must equal Gate(B, V). PatchIrrelevant is checked by TLC on the model.",
+                note="Trusted: TLC, the rendering of version records as strings, classification of the tool's verdict by failing step."),
+    "C19": dict(level="other", tech="recorded build/regenerate/install generations validated as a trace by TLC against SelfHost.tla (invariants Fixpoint, Functional)",
+                text="One input, nothing to enumerate: two (thorough: three) generations of build -> regenerate -> install on a scratch copy of the working tree, digests compared modulo the version comment line; the trace is accepted by TLC only if every regeneration equals the checked-in file.",
+                note="Trusted: the Go toolchain, sha256, the Makefile's self-compile patterns."),
 }
 
 NOT_YET = "check not built yet in this round (planned in DESIGN.md section 6); will be claimed once its TLA+ family and harness exist"
